@@ -1,7 +1,9 @@
 """C18: R-SHORT (short-count discipline), R-SEEKFIRST (backend I/O only
 through a freshly sought Sector), R-NONDET (nondeterminism sources)."""
+import re
 from cg import op_local, peel
 from core import Finding, RuleResult, view
+from prov import Prov
 from dataflow import forward_taint, rv_places
 from facts import callee_name
 
@@ -498,5 +500,46 @@ def epochcentre(pid):
                 else:
                     res.fail(Finding(res.rule, "R-EPOCH/%s/distance-not-measured-from-unix-epoch" % f.path, "%s measures the time as a distance from %s instead of UNIX_EPOCH: truncating that distance to 100 ns rounds toward that instant, so a time before 1970 with a sub-100ns part is stored one tick too early (the contract is rounding toward the Unix epoch)" % (f.path.split("::")[-1], ref[:60]), f, c.term["span"]))
         res.floor("duration_since calls in the timestamp module", n, ctx.table("floors").get("epoch_sites", 0))
+        return res
+    return run
+
+
+def tsident(pid):
+    """R-TSIDENT: the timestamp codec is the identity on the 64-bit word: Timestamp::read_from wraps exactly the word
+    it read, on every Ok path, and Timestamp::write_to writes exactly the word it holds.  A value replaced on the
+    way in (clamped, treated as 'unset') reads back after reopening as something other than what was set."""
+    def run(ctx):
+        res = RuleResult("R-TSIDENT(%s)" % pid, "Timestamp::read_from returns Timestamp(word read) on every Ok path; Timestamp::write_to writes self.0")
+        n = 0
+        f = ctx.fx.fns.get("internal::timestamp::Timestamp::read_from")
+        if f is None:
+            res.gone.append("Timestamp::read_from")
+        else:
+            pr = Prov(f)
+            for bb, blk in enumerate(f.blocks):
+                if blk["cleanup"]:
+                    continue
+                for i, st in enumerate(blk["stmts"]):
+                    if st["s"] == "assign" and st["place"]["local"] == 0 and not st["place"]["proj"] and st["rv"]["r"] == "aggregate" and st["rv"].get("variant") == "Ok":
+                        n += 1
+                        val = pr._def((bb, i, st), 0, ())
+                        if re.match(r"^Result::Ok\(Timestamp::Timestamp\(ok\((?:\w+::)*read_le_u64\(param:\w+\)\)\)\)$", val):
+                            res.ok({"function": f.path, "returns": val[:80]})
+                        else:
+                            res.fail(Finding(res.rule, "R-TSIDENT/read_from/not-the-word-read", "Timestamp::read_from can return %s: a stored time is not read back as the 64-bit word that was written" % val[:100], f, st["span"]))
+        f = ctx.fx.fns.get("internal::timestamp::Timestamp::write_to")
+        if f is None:
+            res.gone.append("Timestamp::write_to")
+        else:
+            pr = Prov(f)
+            for c in view(ctx, f).calls.values():
+                if c.name.endswith("write_le_u64") and len(c.term["args"]) == 2:
+                    n += 1
+                    val = pr.operand(c.term["args"][1])
+                    if re.match(r"^(param:self\.0|Timestamp::value\(param:self\))$", val):
+                        res.ok({"function": f.path, "writes": val})
+                    else:
+                        res.fail(Finding(res.rule, "R-TSIDENT/write_to/not-the-word-held", "Timestamp::write_to writes %s, not the word the timestamp holds" % val[:100], f, c.term["span"]))
+        res.floor("codec sites", n, ctx.table("floors").get("tsident_sites", 0))
         return res
     return run
